@@ -681,7 +681,7 @@ def big_digest(path):
             im.close()
 
 
-def big_child(path, newout, newin, spec, wfd):
+def big_child(path, op, spec, wfd):
     st = _State(["none", "setup"], wfd)          # no crash point while the journal is opened and the session loaded
     import sqlite3
     real_connect = sqlite3.connect
@@ -691,13 +691,13 @@ def big_child(path, newout, newin, spec, wfd):
     # crash points are numbered from the first execute / commit call of the renumbering itself
     st.spec, st.raw, st.trace = spec, 0, []
     st.in_op, st.commits_in_op = 1, 0
-    r = im.step([2, 0, newout, newin])
+    r = im.step(op)
     st.results.append(r)
     st.in_op = None
     st.die("end")
 
 
-def big_run(base, newout, newin, spec, timeout=60):
+def big_run(base, op, spec, timeout=60):
     d = jc.tmpdir()
     path = os.path.join(d, "j.db")
     try:
@@ -707,7 +707,7 @@ def big_run(base, newout, newin, spec, timeout=60):
         if pid == 0:
             try:
                 os.close(rfd)
-                big_child(path, newout, newin, spec, wfd)
+                big_child(path, op, spec, wfd)
             finally:
                 os._exit(3)
         os.close(wfd)
@@ -754,10 +754,14 @@ def big_family(ctx):
         if "error" in before or not before["usable"]:
             ctx.fail({"big": "build"}, "a journal of %d rows per direction cannot be read back: %r" % (BIG_ROWS, before), None)
             return
-        for newout, newin in ((1, 1), (BIG_ROWS // 2, None), (None, 5)):
+        import hashlib
+        huge = m(BIG_ROWS + 1, b"h" * (3 << 20))          # one message larger than SQLite's page cache
+        for op in ([2, 0, 1, 1], [2, 0, BIG_ROWS // 2, None], [2, 0, None, 5], [1, 0, 1, huge]):
+            newout, newin = (op[2], op[3]) if op[0] == 2 else (None, None)
             case0 = {"big_journal": {"rows_per_direction": BIG_ROWS, "message_bytes": BIG_TAIL + 20},
-                     "op": ["set_seq_num", {"next_num_out": newout, "next_num_in": newin}]}
-            rep, after = big_run(base, newout, newin, ["none", "end"])
+                     "op": ["set_seq_num", {"next_num_out": newout, "next_num_in": newin}] if op[0] == 2
+                     else ["persist_msg", {"direction": "OUTBOUND", "seq": BIG_ROWS + 1, "bytes": len(huge)}]}
+            rep, after = big_run(base, op, ["none", "end"])
             if "error" in rep or after is None or "error" in after:
                 ctx.fail(case0, "crash-free renumbering of a large journal failed: %r %r" % (rep, after), None)
                 continue
@@ -770,17 +774,20 @@ def big_family(ctx):
             want_rows = [r for r in before["rows"]
                          if not ((r[1] == 1 and newout is not None and r[0] >= newout) or
                                  (r[1] == 0 and newin is not None and r[0] >= newin))]
+            if op[0] == 1:
+                srow[3] = BIG_ROWS + 2
+                want_rows = sorted(want_rows + [[BIG_ROWS + 1, 1, srow[0], hashlib.sha1(huge).hexdigest()]])
             want = {"sessions": [srow], "rows": want_rows}
             got = {"sessions": after["sessions"], "rows": after["rows"]}
             if got != want or not after["usable"]:
-                ctx.fail(case0, "completed renumbering of a large journal: stored counters %r with %d rows, expected %r with %d rows"
+                ctx.fail(case0, "completed operation on a large journal: stored counters %r with %d rows, expected %r with %d rows"
                          % (after["sessions"], len(after["rows"]), want["sessions"], len(want_rows)), None)
                 continue
             ncalls = len(rep["trace"])
             for r_ in range(1, ncalls + 1):
                 for when in ("before", "after"):
                     spec = ["raw", r_, when]
-                    rep2, obs = big_run(base, newout, newin, spec)
+                    rep2, obs = big_run(base, op, spec)
                     case = dict(case0, spec=spec)
                     ctx.traces += 1
                     ctx.count("big-journal:call-" + when)
@@ -795,7 +802,7 @@ def big_family(ctx):
                     st_ = {"sessions": obs["sessions"], "rows": obs["rows"]}
                     old = {"sessions": before["sessions"], "rows": before["rows"]}
                     if st_ != old and st_ != want:
-                        ctx.fail(case, "death inside the renumbering of a large journal (call %d, %s): recovered counters %r with %d "
+                        ctx.fail(case, "death inside an operation on a large journal (call %d, %s): recovered counters %r with %d "
                                  "rows are neither the state before it (%r, %d rows) nor after it (%r, %d rows)"
                                  % (r_, when, obs["sessions"], len(obs["rows"]), before["sessions"], len(before["rows"]),
                                     want["sessions"], len(want_rows)), None)
